@@ -981,7 +981,9 @@ def conc_trace_check(ctx, name, trace, props, threads=3):
     return generic_trace_check(ctx, "TraceConc.tla", name, trace, consts)
 
 
-def conc_verdict(ctx, name, trace, beh, viol):
+def conc_verdict(ctx, name, trace, beh, viol, left_model=()):
+    """left_model: the runs in which the code did not do what the model of the code as it is (open
+    findings included) does; an open finding explains a rejection only in the other runs."""
     lines = None
     seen = set()
     behs = None
@@ -989,13 +991,28 @@ def conc_verdict(ctx, name, trace, beh, viol):
         if p != ctx.prop or bid in seen:
             continue
         seen.add(bid)
-        if len(ctx.violations) >= 8:
+        if len(ctx.violations) >= 8 and not V.load_findings():
             continue
         if lines is None:
             lines = V.read_lines(trace)
             behs = {b.get("id", i): b for i, b in enumerate(V.read_lines(beh))} if beh else {}
         evs, idx = V.behaviour_events(lines, line)
         b = behs.get(bid, {})
+        # an open finding whose witness the run contains (on these traces only the snapshot pattern of
+        # F7 can occur: there are no maintenance events and no sequential call events)
+        f = witness_of(ctx, evs, idx)
+        if f is not None and ctx.prop == "C10":
+            # F7 leaves the counters equal to what is physically held; only iteration disagrees
+            # (the hidden entry is not yielded): any other disagreement is reported
+            sn = evs[idx].get("snap") or {}
+            res = sn.get("res", [])
+            if not (sn.get("ec") == len(res) and sn.get("ws") == sum(r.get("tw", 0) for r in res)):
+                f = None
+        if f is not None and bid not in left_model:
+            ctx.known_hits[f["id"]] = ctx.known_hits.get(f["id"], 0) + 1
+            continue
+        if len(ctx.violations) >= 8:
+            continue
         path = V.write_replay(p, b.get("cfg", evs[0]), {"progs": b.get("progs"), "sched": b.get("sched"),
                                                         "seed": b.get("seed")},
                               evs, idx, "concurrent:" + name,
@@ -1145,7 +1162,7 @@ def run_sched(ctx, name, beh, n, what):
     ctx.replayed += n
     ctx.events += st["events"]
     ctx.nontrivial += st["nt"].get(ctx.prop, 0)
-    bad = conc_verdict(ctx, name, trace, beh, viol)
+    bad = conc_verdict(ctx, name, trace, beh, viol, left_model={mm.get("id") for mm in summ["mismatches"]})
     ctx.traces_ok += st["behaviours"] - len(bad)
     if len(ctx.samples) < 4:
         b = json.loads(open(beh).readline())
